@@ -112,9 +112,10 @@ def wrappingProto : Proto := { guard := false, useCas := true, checkOk := true }
 /-- The same with the guard of notes/C07.fix.patch. -/
 def guardedProto : Proto := { guard := true, useCas := true, checkOk := true }
 
-/-- The code at the pinned commit (tied to go/ast facts and an evaluation by the `C07_*_is_code`
-    theorems). When the fix is applied this becomes `guardedProto` — nothing else changes. -/
-def codeProto : Proto := wrappingProto
+/-- The code as it stands (tied to go/ast facts and an evaluation by the `C07_*_is_code`
+    theorems): since the `fix:` commit "GetNextUInt32 refuses to wrap the counter around at
+    2^32-1" in /repo this is `guardedProto`; before it, it was `wrappingProto`. -/
+def codeProto : Proto := guardedProto
 
 /-- One call of `GetNextUInt32` by caller `c`. -/
 inductive CState where
